@@ -155,6 +155,7 @@ def run(chk: Check) -> None:
     run_hooks_outside_init(chk, ix)
     run_spill_owns_what_it_stores(chk, ix)
     run_unborrow_before_failing_ops(chk, ix)
+    run_sources_lists_are_read_only(chk, ix)
     base = ix.cls(OP)
     ops = [c for c in base.all_subclasses() if c.module.name == "mypyc.ir.ops" and "sources" in c.methods and not any(isinstance(n, ast.Raise) for n in c.methods["sources"].node.body)]
     if len(ops) < 35:
@@ -1252,3 +1253,52 @@ def run_unborrow_before_failing_ops(chk: Check, ix) -> None:
                 r24.violation(key, f.loc(u), f"`{norm(u)}` is constructed in the loop at line {loop.lineno}, whose body also emits {fallible}: when the store for one target raises (`lst[5], lst[0] = pair()` with a short list) the items of the later targets are still borrowed values of a tuple that was already consumed, and are never released")
     if n < 2:
         raise AnalysisError(f"irbuild: {n} functions that steal an aggregate and unborrow its items found (expected transform_assignment_stmt and the nested-vec pop helper)")
+
+
+MUTATORS = {"append", "extend", "insert", "pop", "remove", "sort", "reverse", "clear"}
+
+
+def run_sources_lists_are_read_only(chk: Check, ix) -> None:
+    """R06.25: the list an op hands out as its sources is not written to."""
+    r25 = chk.rule("R06.25", "some Op.sources() implementations return the op's own operand list rather than a copy (today PrimitiveOp: `return self.args`), so storing into the returned list changes the op, and with it what `op.stolen()` answers afterwards (stolen() is computed from the operands). A pass that replaces operands therefore builds a new list and calls set_sources(); in mypyc/ outside ir/ops.py no function stores into, deletes from or calls a mutating method on a list obtained from `.sources()` (a function that asks `.stolen()` after such a store would release a reference the op has already taken over)", floor=6)
+    ops = ix.module("mypyc.ir.ops")
+    aliasing = []
+    for c in ops.classes.values():
+        m = c.methods.get("sources")
+        if m is None:
+            continue
+        for r in ast.walk(m.node):
+            if isinstance(r, ast.Return) and isinstance(r.value, ast.Attribute) and isinstance(r.value.value, ast.Name) and r.value.value.id == "self":
+                aliasing.append(f"{c.name}.{r.value.attr}")
+    n = 0
+    for mn, m in sorted(ix.modules.items()):
+        if not mn.startswith("mypyc.") or mn.startswith("mypyc.test") or mn == "mypyc.ir.ops":
+            continue
+        for f in list(m.functions.values()) + [mm for c in m.classes.values() for mm in c.methods.values()]:
+            calls = [c for c in ast.walk(f.node) if isinstance(c, ast.Call) and isinstance(c.func, ast.Attribute) and c.func.attr == "sources" and not c.args]
+            if not calls:
+                continue
+            n += 1
+            key = f"{mn.removeprefix('mypyc.')}.{f.name}: lists obtained from .sources() are only read"
+            bound = {a.targets[0].id for a in ast.walk(f.node) if isinstance(a, ast.Assign) and len(a.targets) == 1 and isinstance(a.targets[0], ast.Name) and a.value in calls}
+
+            def is_src_list(e: ast.expr) -> bool:
+                return (isinstance(e, ast.Name) and e.id in bound) or e in calls
+            bad = None
+            for x in ast.walk(f.node):
+                if isinstance(x, (ast.Assign, ast.AugAssign, ast.Delete)):
+                    tg = x.targets if isinstance(x, (ast.Assign, ast.Delete)) else [x.target]
+                    for t in tg:
+                        if isinstance(t, ast.Subscript) and is_src_list(t.value):
+                            bad = x
+                        if isinstance(x, ast.AugAssign) and is_src_list(t):
+                            bad = x
+                if isinstance(x, ast.Call) and isinstance(x.func, ast.Attribute) and x.func.attr in MUTATORS and is_src_list(x.func.value):
+                    bad = x
+            if bad is None or not aliasing:
+                r25.ok(key, f.loc(calls[0]))
+            else:
+                r25.violation(key, f.loc(bad), f"`{norm(bad)[:70]}` writes to a list obtained from .sources(); {', '.join(aliasing)} is handed out uncopied, so for that op class the operands change under the op before set_sources()/stolen() are consulted (spill: a reloaded operand that the op steals gets an extra DecRef; the object is freed while the list built by buf_init_item still holds it)")
+    chk.extra["sources_returned_uncopied"] = aliasing
+    if n < 6:
+        raise AnalysisError(f"only {n} functions calling .sources() found in mypyc/ outside ir/ops.py")
